@@ -44,3 +44,6 @@ PROP = dict(
         "nesting counter and depths are nat, as in the design-round proof (they count constructors of the message tree)",
     ],
 )
+
+# translator agreement lemmas (tools/gokernel regenerates Gen/K*.v from /repo on every run)
+PROP["agree"] = ['Gen/AgreeAnte']
